@@ -123,9 +123,13 @@ class Solver(object):
         if use_solving_under_assumption:
             res = self.solve([formula])
         else:
-            self.add_assertion(formula)
-            res = self.solve()
-            self.pending_pop = True
+            try:
+                self.add_assertion(formula)
+                res = self.solve()
+            finally:
+                # The level is removed (lazily) also if the solver
+                # fails, e.g., with an unknown result
+                self.pending_pop = True
 
         return res
 
